@@ -331,6 +331,10 @@ class Slicer:
         if isinstance(item, (int, slice)):
             item = (item, slice(None))
         if isinstance(item, tuple) and len(item) == 2:
+            # an index past the selection is refused (as on a plate or a list), not turned into an empty selection
+            for index, length in zip(item, self.shape):
+                if isinstance(index, int) and not -length <= index < length:
+                    raise IndexError("Index out of range")
             if isinstance(item[0], int):
                 row = item[0]
                 item = (slice(row, row + 1 if row != -1 else None), item[1])  # (slice(-1, 0) would be empty)
